@@ -34,6 +34,7 @@ func init() {
 
 func runC17(c *Ctx) {
 	c17UseAfterCheck(c)
+	c17APIFresh(c)
 	c17Options(c)
 	c17ConstMetrics(c)
 	c17Mirror(c)
@@ -226,6 +227,7 @@ func c17Mirror(c *Ctx) {
 		return exprCallIs(e, PkgCorerad, "", "boolFloat") && isCtx(e.Args[0], field)
 	}
 	strOf := func(e *an.Expr, helper, typ string) bool {
+		e = parallelElem(c, e) // a label formatted once per option into a parallel local slice
 		return exprCallIs(e, PkgCorerad, "", helper) && len(e.Args) == 1 && optOf(e.Args[0], typ)
 	}
 	type spec struct {
@@ -314,6 +316,30 @@ func c17Mirror(c *Ctx) {
 				ok = ok && len(labels) == 1
 			} else {
 				ok = ok && len(labels) == 2 && sp.label(labels[1])
+				// value and label describe the same option: one element of the pick, not two
+				if ok {
+					elems := map[string]bool{}
+					for _, e := range []*an.Expr{val, parallelElem(c, labels[1])} {
+						e.Walk(func(x *an.Expr) bool {
+							if x.Op == an.OpElem && len(x.Args) >= 1 && exprCallIs(x.Args[0], PkgCorerad, "", "pick") {
+								k := x.Args[0].Name + "[]"
+								if len(x.Args) == 2 {
+									k = x.Args[0].Name + "[" + x.Args[1].String() + "]"
+								}
+								elems[k] = true
+							}
+							return true
+						})
+					}
+					// (an index the path resolved to the loop's first iteration cannot be compared with a symbolic one)
+					nSym := 0
+					for k := range elems {
+						if strings.Contains(k, "loop:") {
+							nSym++
+						}
+					}
+					ok = len(elems) <= 1 || nSym != len(elems)
+				}
 			}
 			key := fn + ":series:" + name
 			if done[key] && ok {
@@ -1221,4 +1247,40 @@ func holdsUint32(c *Ctx, t types.Type) bool {
 		return bits >= 32
 	}
 	return bits >= 64
+}
+
+// c17APIFresh (R-C17-3): the advertisement the debug API renders for an
+// interface is packed from an RA generated for that very request: every store
+// to interfaceBody.Advertisement takes packRA(<result #0 of a
+// RouterAdvertisement call made on the same path>). A rendering remembered
+// from an earlier request is stale as soon as Prepare runs again (hardware
+// address), an address changes or a deprecated lifetime counts down.
+func c17APIFresh(c *Ctx) {
+	var fns []*ssa.Function
+	for _, fn := range c.srcFuncs() {
+		if fn.Pkg != nil && fn.Pkg.Pkg.Path() == PkgCrhttp {
+			fns = append(fns, fn)
+		}
+	}
+	n := 0
+	for _, fs := range an.FindFieldStores(fns, PkgCrhttp, "interfaceBody", "Advertisement") {
+		fn := fs.Fn
+		for _, p := range c.pathsO("R-C17-3", fn, an.PathOpts{EmitCut: true}) {
+			if !p.Visited(fs.Store.Block()) {
+				continue
+			}
+			n++
+			v := p.Of(fs.Store.Val)
+			ok := exprCallIs(v, PkgCrhttp, "", "packRA") && len(v.Args) == 1
+			if ok {
+				b, idx := stripExtract(v.Args[0])
+				gen := callsOnPath(p, func(cc *ssa.CallCommon) bool { return an.CallIs(cc, PkgConfig, "Interface", "RouterAdvertisement") })
+				ok = idx == 0 && exprCallIs(b, PkgConfig, "Interface", "RouterAdvertisement") && len(gen) >= 1
+			}
+			c.R.Check(ok, "R-C17-3", c.fname(fn)+":renders-freshly-generated-ra", c.fname(fn), c.pos(fs.Store.Pos()), "Advertisement ⇐ "+shortExpr(v),
+				"packRA(ra) with ra result #0 of an iface.RouterAdvertisement call on this path",
+				"the API reports an advertisement remembered from an earlier request, not the RA that would be sent now")
+		}
+	}
+	c.R.Check(n >= 1, "R-C17-3", "crhttp:advertisement-stores", "", "", fmt.Sprintf("%d path(s) storing interfaceBody.Advertisement", n), ">= 1", "anchor-missing")
 }
